@@ -46,10 +46,10 @@ __attribute__((constructor)) static void verif_no_aslr() {
     static char buf[1 << 16]; size_t n = fread(buf, 1, sizeof buf - 1, f); fclose(f); if (n == 0 || n >= sizeof buf - 1) return;
     static char* av[1024]; int ac = 0; for (size_t i = 0; i < n && ac < 1023; ) { av[ac++] = buf + i; i += strlen(buf + i) + 1; } av[ac] = nullptr;
     setenv("VERIF_ASLR_OFF", "1", 1);
-    // the initial stack (argument and environment strings + their pointer arrays) is padded to a multiple of 4 KiB, so that the main thread's stack addresses
+    // the initial stack (argument and environment strings + their pointer arrays) is padded to a multiple of 32 KiB, so that the main thread's stack addresses
     // do not depend on the length of a file name or on a debugging variable
     { unsetenv("VERIF_PAD"); size_t sum = 0; for (char** e = environ; *e; ++e) sum += strlen(*e) + 1 + 8; for (int i = 0; i < ac; i++) sum += strlen(av[i]) + 1 + 8;
-      size_t fixed = sum + strlen("VERIF_PAD=") + 1 + 8; size_t pad = (4096 - fixed % 4096) % 4096; std::string v(pad, 'x'); setenv("VERIF_PAD", v.c_str(), 1); }
+      size_t fixed = sum + strlen("VERIF_PAD=") + 1 + 8; size_t pad = (32768 - fixed % 32768) % 32768; std::string v(pad, 'x'); setenv("VERIF_PAD", v.c_str(), 1); }
     execv("/proc/self/exe", av);
 }
 void track(const void* a) { if (g_ntracked < 256) g_tracked[g_ntracked++] = a; }
@@ -66,6 +66,10 @@ bool is_blocked(int t) { return g_sched && g_sched->lts[t]->state.load() == ST_B
 
 static void yield_to_sched(LT* lt, int st) {
     lt->state.store(st);
+    sem_post(&g_wake);
+    sem_wait(&lt->go);
+}
+static void park_blocked(LT* lt) {      // the state (ST_BLOCKED) was published under ftx_lock by the caller
     sem_post(&g_wake);
     sem_wait(&lt->go);
 }
@@ -179,6 +183,18 @@ bool Sched::drain_one(int t) {
 // consecutive steps of its own without changing anything) is treated as yielding: it drops below everybody, so the thread it waits
 // for gets to run.  Finds windows that need one thread to stall for hundreds of steps, which uniform random switching never does.
 static long g_est_len = 1500;
+// Before a deadlock is declared: a finished logical thread whose real exit path is still running (outside scheduler control) may be about to wake a sleeper.
+// Such threads are joined (bounded); returns true if somebody became runnable meanwhile.
+bool Sched::settle_exits() {
+    bool waited = false;
+    for (auto* lt : lts) if (!lt->daemon && lt->state.load() == ST_DONE && lt->joinable) {
+        timespec ts; clock_gettime(CLOCK_REALTIME, &ts); ts.tv_sec += 2;
+        if (pthread_timedjoin_np(lt->th, nullptr, &ts) == 0) lt->joinable = false;
+        waited = true; }
+    if (!waited) return false;
+    for (auto* lt : lts) if (lt->state.load() == ST_HOOK) return true;
+    return false;
+}
 int Sched::run_pct(uint64_t seed, long maxsteps, int depth) {
     std::mt19937_64 rng(seed);
     int nt = n();
@@ -199,7 +215,7 @@ int Sched::run_pct(uint64_t seed, long maxsteps, int depth) {
             if (s == ST_HOOK) { ++nrun; if (best < 0 || prio[lt->id] > prio[best]) best = lt->id; } }
         if (alldone) { rc = RC_OK; break; }
         if (wbuf && (best < 0 || (rng() % 4) == 0)) { for (auto* lt : lts) if (!lt->buf.empty()) { drain_one(lt->id); break; } continue; }
-        if (best < 0) { rc = RC_DEADLOCK; break; }
+        if (best < 0) { if (settle_exits()) continue; rc = RC_DEADLOCK; break; }
         if (hung) { rc = RC_HANG; break; }
         if (steps > maxsteps || over_time()) { rc = RC_STEPLIMIT; break; }
         if (steps - last_change > stall_limit) { rc = RC_STALL; break; }
@@ -237,7 +253,7 @@ int Sched::run_random(uint64_t seed, long maxsteps, int switch_den) {
         for (auto* lt : lts) { int s = lt->state.load(); if (s != ST_DONE && !lt->daemon) alldone = false; if (s == ST_HOOK) r.push_back(lt->id); if (!lt->buf.empty()) wb.push_back(lt->id); }
         if (alldone) return RC_OK;
         if (!wb.empty() && (r.empty() || (rng() % 3) == 0)) { drain_one(wb[rng() % wb.size()]); continue; }
-        if (r.empty()) return RC_DEADLOCK;
+        if (r.empty()) { if (settle_exits()) continue; return RC_DEADLOCK; }
         if (hung) return RC_HANG;
         if (steps > maxsteps || over_time()) return RC_STEPLIMIT;
         if (steps - last_change > stall_limit) return RC_STALL;
@@ -269,7 +285,7 @@ int Sched::finish(long maxsteps) {
             if (s == ST_HOOK) { any = true; step(lt->id); }
         }
         if (alldone) return RC_OK;
-        if (!any) return RC_DEADLOCK;
+        if (!any) { if (settle_exits()) continue; return RC_DEADLOCK; }
         if (hung) return RC_HANG;
         if (steps > maxsteps || over_time()) return RC_STEPLIMIT;
         if (steps - last_change > stall_limit) return RC_STALL;
@@ -366,11 +382,16 @@ extern "C" long verif_syscall(long nr, ...) {
             verif_tso_flush();
             lt->pend = {addr, K_FUTEX_WAIT, 0, 4};
             yield_to_sched(lt, ST_HOOK);                       // schedule point before the atomic check-and-block
-            if (__atomic_load_n(addr, __ATOMIC_SEQ_CST) != (int)a[2]) { errno = EAGAIN; return -1; }
+            // value check and transition to BLOCKED are one atomic step also with respect to FOREIGN wakers (threads outside scheduler control: the exit path of a
+            // finished logical thread, a clean-up call from the harness' main thread): a wake that slipped between the two would be lost, which no kernel futex allows
+            ftx_lock();
+            if (__atomic_load_n(addr, __ATOMIC_SEQ_CST) != (int)a[2]) { ftx_unlock(); errno = EAGAIN; return -1; }
             if (g_sched) ++g_sched->futex_waits;
             lt->waitaddr = addr;
             lt->pend = {addr, K_YIELD, 0, 0};
-            yield_to_sched(lt, ST_BLOCKED);                    // resumed only after a wake marked us runnable and the scheduler granted a step
+            lt->state.store(ST_BLOCKED);
+            ftx_unlock();
+            park_blocked(lt);                                  // resumed only after a wake marked us runnable and the scheduler granted a step
             return 0;
         }
         if (op == FUTEX_WAKE) {
